@@ -104,6 +104,18 @@ pub fn subs() -> Vec<Box<dyn AnySub>> {
                 .boxed()
         },
         check: check_edit,
+    }),
+    // (last: the log level is process-wide) the same edits while a logger renders every record down to trace level --
+    // the canonical request, and with it every header value, is formatted for the log
+    Box::new(Sub {
+        name: "header-edit-with-trace-logging",
+        quick: 15_000,
+        thorough: 200_000,
+        strat: || (header_plan(), hedit()).prop_map(|(plan, edit)| HeaderCase { plan, edit }).boxed(),
+        check: |hc, cc| {
+            exec::enable_log_capture();
+            exec::with_logs(|| check_edit(hc, cc)).0.map_err(|f| if f.sig == "HARNESS" { f } else { Failure::new(&format!("{}:trace-logging", f.sig), f.msg) })
+        },
     })]
 }
 
@@ -278,7 +290,7 @@ pub fn apply(e: &HEdit, req: &mut WireRequest) -> Option<&'static str> {
             ];
             let at = pick_idx(*pos, hs.len() + 1);
             if which % 3 == 0 {
-                let (n, v) = STRUCTURED[pick_idx(which / 3 * 3 + 2, STRUCTURED.len())];
+                let (n, v) = STRUCTURED[pick_idx((which / 3).wrapping_mul(3).wrapping_add(2), STRUCTURED.len())];
                 hs.insert(at, (n.to_string(), B::from(v)));
                 return Some("insert-structured-header");
             }
